@@ -107,3 +107,10 @@ VARIANTS += [
          old="            study = self._studies[study_id]\n            study.user_attrs = {**study.user_attrs, key: value}\n",
          new="            study = self._studies[study_id]\n            new_attrs = dict(study.user_attrs)\n            new_attrs[key] = value\n            study.user_attrs = new_attrs\n"),
 ]
+
+ST20 = "optuna/study/study.py"
+VARIANTS += [
+    dict(id="c20-best-trial-copied-before-fallback", prop="C20", file=ST20, expect="R20.2",
+         edits=[dict(file=ST20, old="        best_trial = self._storage.get_best_trial(self._study_id)\n", new="        best_trial = copy.deepcopy(self._storage.get_best_trial(self._study_id))\n"),
+                dict(file=ST20, old="        return copy.deepcopy(best_trial)\n", new="        return best_trial\n")]),
+]
